@@ -53,9 +53,16 @@ pub open spec fn splitn_spec(s: Seq<char>, n: nat, sep: char) -> Seq<Seq<char>>
 }
 proof fn lemma_first_sep(s: Seq<char>, sep: char)
     ensures 0 <= first_sep(s, sep) <= s.len(),
+        first_sep(s, sep) < s.len() ==> s[first_sep(s, sep)] == sep,
+        forall|k: int| 0 <= k < first_sep(s, sep) ==> s[k] != sep,
     decreases s.len()
 {
-    if s.len() > 0 && s[0] != sep { lemma_first_sep(s.drop_first(), sep); }
+    if s.len() > 0 && s[0] != sep {
+        lemma_first_sep(s.drop_first(), sep);
+        assert forall|k: int| 0 <= k < first_sep(s, sep) implies s[k] != sep by {
+            if k > 0 { assert(s.drop_first()[k - 1] == s[k]); }
+        }
+    }
 }
 /// `splitn` yields at least one piece (even for the empty string) and at most n
 proof fn lemma_splitn_len(s: Seq<char>, n: nat, sep: char)
@@ -77,6 +84,43 @@ proof fn lemma_splitn_first(s: Seq<char>, n: nat, sep: char)
         s.len() > 0 && s[0] == sep && n >= 2 ==> splitn_spec(s, n, sep)[0].len() == 0,
 {
     reveal(splitn_spec);
+}
+/// the pieces put together again with the separator between them
+pub open spec fn join(p: Seq<Seq<char>>, sep: char) -> Seq<char>
+    decreases p.len()
+{
+    if p.len() == 0 { Seq::<char>::empty() } else if p.len() == 1 { p[0] } else { p[0] + seq![sep] + join(p.drop_first(), sep) }
+}
+pub open spec fn has_sep(t: Seq<char>, sep: char) -> bool { exists|k: int| 0 <= k < t.len() && t[k] == sep }
+/// sanity of the definition of splitn_spec: the split loses no character (joining the pieces gives the text
+/// back) and only the n-th piece can contain the separator
+proof fn lemma_splitn_lossless(s: Seq<char>, n: nat, sep: char)
+    requires n >= 1,
+    ensures
+        join(splitn_spec(s, n, sep), sep) == s,
+        forall|i: int| 0 <= i < splitn_spec(s, n, sep).len() && i < n - 1 ==> !has_sep(#[trigger] splitn_spec(s, n, sep)[i], sep),
+    decreases n
+{
+    reveal(splitn_spec);
+    lemma_first_sep(s, sep);
+    let i = first_sep(s, sep);
+    if n == 1 || i >= s.len() {
+        assert(splitn_spec(s, n, sep) =~= seq![s]);
+    } else {
+        let tail = s.subrange(i + 1, s.len() as int);
+        let head = s.subrange(0, i);
+        lemma_splitn_lossless(tail, (n - 1) as nat, sep);
+        lemma_splitn_len(tail, (n - 1) as nat, sep);
+        let p = splitn_spec(s, n, sep);
+        let q = splitn_spec(tail, (n - 1) as nat, sep);
+        assert(p == seq![head] + q);
+        assert(p.drop_first() =~= q);
+        assert(p[0] == head);
+        assert(head + seq![sep] + tail =~= s);
+        assert forall|k: int| 0 <= k < p.len() && k < n - 1 implies !has_sep(#[trigger] p[k], sep) by {
+            if k > 0 { assert(p[k] == q[k - 1]); }
+        }
+    }
 }
 proof fn lemma_trim_idempotent(s: Seq<char>)
     ensures trim_end_spec(trim_end_spec(s)) == trim_end_spec(s),
@@ -104,6 +148,11 @@ impl Str {
     #[verifier::external_body]
     pub fn clear(&mut self)
         ensures final(self)@ == Seq::<char>::empty(),
+    { unimplemented!() }
+    /// any other string literal used as a `&str`
+    #[verifier::external_body]
+    pub fn lit(s: &'static str) -> (r: &'static Str)
+        ensures r@ == s@,
     { unimplemented!() }
     /// `str::trim_end` (ASSUMED std contract: trim_end_spec)
     #[verifier::external_body]
@@ -268,6 +317,26 @@ pub open spec fn bed_rest(line: Seq<char>) -> Seq<char> {
     if bed_cols(line).len() >= 4 { bed_cols(line)[3] } else { Seq::<char>::empty() }
 }
 
+/// what the column vocabulary means (consequences of the definitions, no code involved): the columns of a
+/// line, put together with tabs, ARE the line without its trailing whitespace -- nothing is lost, in particular
+/// `rest` is everything behind the third tab; chrom, start, end (and the bedGraph value) contain no tab
+proof fn lemma_line_is_its_columns(line: Seq<char>)
+    ensures
+        [[L: lemma/bed_columns_joined_by_tabs_are_the_trimmed_line]]
+        join(bed_cols(line), '\t') == trim_end_spec(line),
+        forall|i: int| 0 <= i < bed_cols(line).len() && i < 3 ==> !has_sep(#[trigger] bed_cols(line)[i], '\t'),
+        [[L: lemma/bedgraph_columns_joined_by_tabs_are_the_trimmed_line]]
+        join(bg_cols(line), '\t') == trim_end_spec(line),
+        forall|i: int| 0 <= i < bg_cols(line).len() && i < 4 ==> !has_sep(#[trigger] bg_cols(line)[i], '\t'),
+        [[L: lemma/a_line_always_has_a_first_column]]
+        1 <= bed_cols(line).len() <= 4, 1 <= bg_cols(line).len() <= 5,
+{
+    lemma_splitn_lossless(trim_end_spec(line), 4, '\t');
+    lemma_splitn_lossless(trim_end_spec(line), 5, '\t');
+    lemma_splitn_len(trim_end_spec(line), 4, '\t');
+    lemma_splitn_len(trim_end_spec(line), 5, '\t');
+}
+
 // ================= (1) parse_bed / parse_bedgraph =================
 // The immediately-invoked closure `let res = (|| { BODY })();` is cut out as its own function (extract kind
 // `closure`, rule R10): `fn parse_bed_fields(split: &mut VSplit, s: &Str) -> Result<..> { BODY }` -- BODY verbatim,
@@ -285,6 +354,7 @@ pub open spec fn bed_rest(line: Seq<char>) -> Seq<char> {
 //@sub /\.parse::<(\w+)>\(\)/ => .parse_\1() min=0
 //@sub /format!\(\s*"(\w+ \w+)[^"]*"\s*,\s*/ => fmt_msg("\1",  min=0
 //@sub /unwrap_or\(""\)/ => unwrap_or(Str::empty()) min=0
+//@sub /unwrap_or\(("[^"]*")\)/ => unwrap_or(Str::lit(\1)) min=0
 //@ret r
 //@sig
     ensures
@@ -337,6 +407,7 @@ pub open spec fn bed_rest(line: Seq<char>) -> Seq<char> {
 //@sub /\.parse::<(\w+)>\(\)/ => .parse_\1() min=0
 //@sub /format!\(\s*"(\w+ \w+)[^"]*"\s*,\s*/ => fmt_msg("\1",  min=0
 //@sub /unwrap_or\(""\)/ => unwrap_or(Str::empty()) min=0
+//@sub /unwrap_or\(("[^"]*")\)/ => unwrap_or(Str::lit(\1)) min=0
 //@ret r
 //@sig
     ensures
@@ -447,6 +518,9 @@ impl StreamingLineReader {
         [[L: reader/io_error_is_passed_on]]
         old(self).lines().len() > 0 ==> (old(self).lines()[0] matches Err(e) ==>
             r == Some(Err::<&Str, IoErr>(e))),
+    decreases
+        [[L: reader/termination]]
+        old(self).lines().len(),
 //@at /match self\.buf_read\.read_line\(/ before
         assert(self.current_line@ =~= Seq::<char>::empty()); [[L: reader/buffer_is_empty_before_the_read]]
         proof { assert forall|t: Seq<char>| (#[trigger] (Seq::<char>::empty() + t)) == t by { assert(Seq::<char>::empty() + t =~= t); } }
